@@ -317,7 +317,7 @@ for sig, (v, job) in sorted(seen.items()):
     again = harness(dict(hist=ro['hist'], shape=ro['shape'], only_k=ro['only_k'], only_variant=ro['only_variant'], only_detail=ro['only_detail'],
                          max_subset=ro['max_subset'], id=900), trace=False)
     if not [x for x in again['violations'] if x['signature'] == sig]:
-        c.inconclusive('violation %s not reproduced on a second run' % sig)
+        c.unreproduced('violation %s not reproduced on a second run' % sig)
     reproduced += 1
     c.report(sig, v['detail'], ro)
 for tag, h in hypotheses.items():
